@@ -328,6 +328,42 @@ func (pr *printer) wp(expr, poison string) string {
 	return name
 }
 
+func (pr *printer) concArg() string {
+	if pr.p.ConstConc > 0 {
+		return "concK"
+	}
+	return pr.wp("x.Conc()", "")
+}
+
+// constFiles: the two declarations of the constants a ConstConc / ConstCOE
+// program (and its guest, suffix Z) passes to its directive.
+func (p *Program) constFiles(out map[string]string) {
+	var gen, run strings.Builder
+	add := func(q *Program, suf string) {
+		if q.ConstConc > 0 {
+			other := q.ConstConc + 5
+			if q.nameOffset()%2 == 0 {
+				other = 1
+			}
+			fmt.Fprintf(&gen, "const concK%s = %d\n", suf, other)
+			fmt.Fprintf(&run, "const concK%s = %d\n", suf, q.ConstConc)
+		}
+		if q.ConstCOE > 0 {
+			fmt.Fprintf(&gen, "const coeK%s = %v\n", suf, q.ConstCOE == 2)
+			fmt.Fprintf(&run, "const coeK%s = %v\n", suf, q.ConstCOE == 1)
+		}
+	}
+	add(p, "")
+	if p.Guest != nil {
+		add(p.Guest, "Z")
+	}
+	if gen.Len() == 0 {
+		return
+	}
+	out["kseen.go"] = "//go:build cff\n\npackage " + p.Name + "\n\n// what the generator sees\n" + gen.String()
+	out["kbuilt.go"] = "//go:build !cff\n\npackage " + p.Name + "\n\n// what the program is built with\n" + run.String()
+}
+
 func (pr *printer) fnPoisonIf(f *Fn, c *Coll) string {
 	if !pr.p.Bare || f.Spell == SpImport {
 		return ""
@@ -524,7 +560,7 @@ func (pr *printer) orderOpts(opts []opt) []string {
 	return out
 }
 
-var guestIdent = regexp.MustCompile(`\b(T\d+[es]?|A\d+|mkT\d+|unT\d+|E\d+|mkE\d+|unE\d+|C\d+|mkC\d+|G|hands|Run|runG|topF\d+|genF\d+|resHolder|desc)\b`)
+var guestIdent = regexp.MustCompile(`\b(T\d+[es]?|A\d+|mkT\d+|unT\d+|E\d+|mkE\d+|unE\d+|C\d+|mkC\d+|G|hands|Run|runG|topF\d+|genF\d+|resHolder|desc|concK|coeK)\b`)
 
 // guestSource prints program g for inclusion in the file of program host: the
 // declarations of g's own file (everything after its imports) with every
@@ -565,6 +601,7 @@ func (p *Program) Files(base string) map[string]string {
 		main += guestSource(p.Guest, p.Name)
 	}
 	out := map[string]string{"p.go": main}
+	p.constFiles(out)
 	if pr.helper.Len() == 0 {
 		return out
 	}
@@ -696,7 +733,7 @@ func (pr *printer) source() string {
 			}
 		}
 		if f.Concurrency {
-			os = append(os, opt{rank(2), func() string { return "cff.Concurrency(" + pr.wp("x.Conc()", "") + ")" }})
+			os = append(os, opt{rank(2), func() string { return "cff.Concurrency(" + pr.concArg() + ")" }})
 		}
 		if f.Instrument {
 			os = append(os, opt{rank(3), func() string { return "cff.InstrumentFlow(" + pr.wp(`"flow"`, `"POISON"`) + ")" }})
@@ -722,10 +759,15 @@ func (pr *printer) source() string {
 		}
 		var os []opt
 		if pp.Concurrency {
-			os = append(os, opt{rank(0), func() string { return "cff.Concurrency(" + pr.wp("x.Conc()", "") + ")" }})
+			os = append(os, opt{rank(0), func() string { return "cff.Concurrency(" + pr.concArg() + ")" }})
 		}
 		if pp.COE {
-			os = append(os, opt{rank(1), func() string { return "cff.ContinueOnError(" + pr.wp("x.COE()", "") + ")" }})
+			os = append(os, opt{rank(1), func() string {
+				if p.ConstCOE > 0 {
+					return "cff.ContinueOnError(coeK)"
+				}
+				return "cff.ContinueOnError(" + pr.wp("x.COE()", "") + ")"
+			}})
 		}
 		if pp.Instrument {
 			os = append(os, opt{rank(2), func() string { return "cff.InstrumentParallel(" + pr.wp(`"par"`, `"POISON"`) + ")" }})
